@@ -3,6 +3,7 @@ package main
 import (
 	"crypto/tls"
 	"fmt"
+	"io"
 	"math/rand"
 	"net"
 	"net/http"
@@ -253,6 +254,23 @@ func c19Timeouts(c *ctx) {
 				return
 			}
 			defer tlsUp.Close()
+			// an https upstream that accepts the connection and then says nothing at all (no ServerHello)
+			sln, err := net.Listen("tcp", "127.0.0.1:0")
+			if err != nil {
+				c.R.Inconcl("listen: %v", err)
+				return
+			}
+			defer sln.Close()
+			go func() {
+				for {
+					cn, err := sln.Accept()
+					if err != nil {
+						return
+					}
+					go func() { defer cn.Close(); io.Copy(io.Discard, cn) }()
+				}
+			}()
+			silentAddr := sln.Addr().String()
 			proxyAddr := fmt.Sprintf("127.0.0.1:%d", freePort())
 			bh, closeBH, haveBH := blackhole()
 			if haveBH {
@@ -265,6 +283,8 @@ func c19Timeouts(c *ctx) {
 				fmt.Sprintf("route add skip skip.test/ https://%s/ opts \"proto=https tlsskipverify=true\"", tlsUp.Addr()),
 				fmt.Sprintf("route add hostr hostr.test/ https://%s/ opts \"proto=https host=up.test tlsskipverify=true\"", tlsUp.Addr()),
 				fmt.Sprintf("route add hang hang.test/ http://%s/", bh),
+				fmt.Sprintf("route add silent silent.test/ https://%s/ opts \"proto=https tlsskipverify=true\"", silentAddr),
+				fmt.Sprintf("route add silenth silenth.test/ https://%s/ opts \"proto=https host=up.test tlsskipverify=true\"", silentAddr),
 			}, "\n")
 			// the routes are in the Consul KV store before fabio starts: they are part of the first routing table, and no
 			// barrier (which would rebuild the table) is issued afterwards
@@ -289,6 +309,17 @@ func c19Timeouts(c *ctx) {
 					if resp.Err != nil || resp.Status < 500 || resp.Elapsed > 700*time.Millisecond+2*time.Second {
 						c.R.Violate("c19:dial-timeout-not-applied:binary", fmt.Sprintf("upstream whose connect hangs, -proxy.dialtimeout 700ms: status %d after %s (err %v)", resp.Status, resp.Elapsed.Round(time.Millisecond), resp.Err), nil)
 					}
+				}
+			}
+			// the silent https upstream: no answer within the limits => 504, not a client held for ever
+			for k, host := range []string{"silent.test", "silenth.test", "silent.test"} {
+				raw := fmt.Sprintf("GET /s%d HTTP/1.1\r\nHost: %s\r\nConnection: close\r\n\r\n", k, host)
+				resp := rawhttp.Do(rawhttp.Dial{Addr: proxyAddr, Timeout: 12 * time.Second}, []byte(raw), "GET")
+				c.R.Eval(1)
+				c.R.Nontrivial(fmt.Sprintf("silent-tls-%d-%d", ci, k))
+				if bound := 700*time.Millisecond + cf.T + 2*time.Second; resp.Err != nil || resp.Status != 504 || resp.Elapsed > bound {
+					c.R.Violate("c19:silent-tls-upstream-holds-client:"+host, fmt.Sprintf("https upstream that accepts and never answers the ClientHello (-proxy.dialtimeout 700ms, -proxy.responseheadertimeout %s): status %d after %s (err %v), want 504 within %s", cf.T, resp.Status, resp.Elapsed.Round(time.Millisecond), resp.Err, bound), nil)
+					break
 				}
 			}
 			r := c.rng(int64(1900 + ci))
